@@ -68,7 +68,7 @@ def run(R):
     quick = R.tier == 'quick'
     R.rule = ('channel cases = (seed A, seed B, local id, peer id, plaintext length): both endpoints are constructed (A with B\'s public key and vice versa, ids mirrored), '
               'each direction is encrypted by one side and decrypted by the other; packet layout contract on every encrypt; signature cases = (key, message) with '
-              'all 512 single-bit flips of the signature, neighbouring messages, other keys; mnemonics sampled from mnemonic_new(); distinct = distinct case tuple; '
+              'all 512 single-bit flips of the signature, neighbouring messages, other keys; mnemonics sampled from mnemonic_new() and produced by it under a steered entropy source (basic seeds with rare digest contents); distinct = distinct case tuple; '
               'non-trivial = plaintext non-empty / any signature case')
     R.assumptions = ['libsodium (PyNaCl), x25519 and pycryptodome are trusted', 'mnemonic_new is sampled with its default word count',
                      '"fails" for a signature = verify_sign returns False or raises']
@@ -295,6 +295,7 @@ def run(R):
             R.count('mnemonics_with_password')
             R.case(mon.fp('mnpw', tuple(words)))
         R.check(keys.mnemonic_is_valid(['abandon'] * 23) is False, 'short-mnemonic-valid', '23-word mnemonic accepted', {})
+        steered_mnemonics(R, keys, rng, 1 if quick else 6)
     finally:
         C.uninstall()
     R.floor('pairs_local>peer', 5)
@@ -307,6 +308,71 @@ def run(R):
     R.floor('derivations', 2)
     R.floor('second_identity_pairs', 5)
     R.floor('mnemonics_with_password', 3)
+    R.floor('steered_mnemonics', 3)
+
+
+def steered_mnemonics(R, keys, rng, per_feature):
+    """The generator's output space is every 24-word list that passes the basic-seed test; what its random source happens to give in a dozen calls says nothing
+    about the rare members.  Here the entropy source of the generator is replaced (os.urandom as seen by the keys module, restored afterwards) by a stream that makes
+    the real generator emit word lists chosen beforehand by an independent search: basic seeds whose digests have a particular content - first byte of the
+    'TON fast seed version' digest equal to 1 (tonlib's password-seed marker) or 0, entropy beginning with a zero byte or ending in 0xFF.  Every list the generator
+    returns - steered as intended or not - must be valid."""
+    import hashlib
+    import hmac
+    import os as real_os
+
+    def entropy(words):
+        return hmac.new(' '.join(words).encode(), b'', hashlib.sha512).digest()
+
+    def basic(e):
+        return hashlib.pbkdf2_hmac('sha512', e, b'TON seed version', 100000 // 256)[0] == 0
+
+    features = {'fast-seed-digest-01': lambda e: hashlib.pbkdf2_hmac('sha512', e, b'TON fast seed version', 1)[0] == 1,
+                'fast-seed-digest-00': lambda e: hashlib.pbkdf2_hmac('sha512', e, b'TON fast seed version', 1)[0] == 0,
+                'entropy-begins-00': lambda e: e[0] == 0, 'entropy-ends-ff': lambda e: e[-1] == 0xFF}
+    wl = list(keys.words)
+    for fname, feat in features.items():
+        found = 0
+        tries = 0
+        while found < per_feature and tries < 400000:
+            tries += 1
+            target = [wl[rng.randrange(len(wl))] for _ in range(24)]
+            e = entropy(target)
+            if not feat(e) or not basic(e):
+                continue
+            found += 1
+            stream = [wl.index(w) for w in target]
+            served = [0]
+
+            class _OS:
+                def __getattr__(self, k):
+                    return getattr(real_os, k)
+
+                def urandom(self, n):
+                    if served[0] < len(stream) and n >= 2:
+                        i = stream[served[0]]
+                        served[0] += 1
+                        return i.to_bytes(2, 'big') + bytes(n - 2)
+                    return real_os.urandom(n)
+            old = keys.os
+            keys.os = _OS()
+            try:
+                st, words = mon.call(keys.mnemonic_new)
+            finally:
+                keys.os = old
+            W = {'feature': fname, 'target': target}
+            if st == 'exc':
+                R.violation('mnemonic-new-raises', f'mnemonic_new raised {words!r} under a steered entropy source', W)
+                continue
+            R.count('steered_as_intended' if words == target else 'steered_but_other_output')
+            R.cover('steered_features', fname)
+            R.counters['oracle_evaluations'] += 1
+            R.check(keys.mnemonic_is_valid(words) is True, 'generated-mnemonic-invalid', f'mnemonic_is_valid is false for a mnemonic the generator produced ({fname})', dict(W, words=words))
+            k1, k2 = keys.mnemonic_to_wallet_key(words), keys.mnemonic_to_wallet_key(list(words))
+            R.check(k1 == k2 and k1[1][32:] == k1[0], 'derivation-not-deterministic', 'two derivations from the same generated mnemonic differ', dict(W, words=words))
+            R.count('steered_mnemonics')
+            R.case(mon.fp('steered', tuple(words)))
+        R.extra.setdefault('steered_search_tries', {})[fname] = tries
 
 
 def replay(R, w, rec):
